@@ -62,9 +62,9 @@ func (c *nullConn) SetReadDeadline(time.Time) error  { return nil }
 func (c *nullConn) SetWriteDeadline(time.Time) error { return nil }
 
 // quietServer is a server (never started) whose log output is discarded.
-func quietServer() *mqtt.Server {
-	return mqtt.New(&mqtt.Options{Logger: slog.New(slog.NewTextHandler(io.Discard, nil))})
-}
+func quietLogger() *slog.Logger { return slog.New(slog.NewTextHandler(io.Discard, nil)) }
+
+func quietServer() *mqtt.Server { return mqtt.New(&mqtt.Options{Logger: quietLogger()}) }
 
 func lsScenarios(rng *rand.Rand) []lsScenario {
 	var out []lsScenario
